@@ -87,7 +87,10 @@ CHECKS = [
   "text": "Theorems (congruence laws of the model, thin by construction): for any pointwise predictor — P-splines with a fitted state that "
           "CONTAINS the fit domain, local polynomials with the data — the value at a location is the same at any position of any query list "
           "(sub-lists, permutations, concatenations); P-spline prediction is such a predictor; predicting at the fitting grid equals the "
-          "fitted values B beta (transpose lemma); rebuilding the basis on the query range (repaired defect F6) is refuted by a computed witness. "
+          "fitted values B beta (transpose lemma); rebuilding the basis on the query range (repaired defect F6) is refuted by a computed witness "
+          "and characterised (it coincides with the correct prediction exactly on queries spanning the fit domain: predict_rebuild_same_range); "
+          "queries compose (ps_predict_app / _length / _repeat) and only the coefficients and fit-domain fields of the state are consulted "
+          "(ps_predict_state_fields). "
           "Tie (where the content is): PSplines.predict vs the pointwise model (exact Cox-de Boor basis on the fit domain, implementation's "
           "beta) and the metamorphic relation Q' subset Q for PSplines, LocalPolynomial, and smooth / mean / covariance of dense and "
           "irregular data with PS and LP, explicit and default parameters, 1-D and a 2-D sub-grid case.",
